@@ -109,6 +109,10 @@ def lower(e: Ex, arrays) -> Ex:
                 else:
                     words.append(a[ref])
             return Ex("var", e.ty, (), "(" + " ".join(words) + ")")
+        if e.op in ("sumband2", "slicenonneg2"):
+            info = arrays[e.aux]
+            f = "PyInterp.sumBand2" if e.op == "sumband2" else "PyInterp.allNonneg2"
+            return Ex("var", e.ty, (), "(" + " ".join([f, info.lean] + list(info.dims) + a) + ")")
         text = {"band": "(PyInterp.band {0} {1})", "bor": "(PyInterp.bor {0} {1})", "trunc": "(PyInterp.truncRat {0})"}
         text.update(LOWER_TEXT)
         return Ex("var", e.ty, (), text[e.op].format(*a))
@@ -159,6 +163,12 @@ def ev(e: Ex, env, arrays):
         py_name, parts = e.aux
         ck = arrays["#callees"][py_name].kernel
         return evaluate_vec(ck, [arrays[ref] if kind == "array" else a[ref] for kind, ref in parts])
+    if e.op in ("sumband2", "slicenonneg2"):
+        arr = arrays[e.aux]
+        cells = [arr.data[i][j] for i in range(*clip_slice(arr.shape[0], a[0], a[1])) for j in range(*clip_slice(arr.shape[1], a[2], a[3]))]
+        if e.op == "slicenonneg2":
+            return all(x >= 0 for x in cells)
+        return sum((x & a[4]) if x >= 0 and a[4] >= 0 else 0 for x in cells)
     if e.op == "resok":
         return a[0][0] == "ok"
     if e.op == "resget":
@@ -186,6 +196,15 @@ def ev(e: Ex, env, arrays):
         env2[f"#x{i}"] = v
         names.append(Ex("var", e.args[i].ty, (), f"#x{i}"))
     return pyloops.ev(Ex(e.op, e.ty, tuple(names), e.aux), env2, arrays)
+
+
+def clip_slice(n, lo, hi):
+    """the index range of `a[lo:hi]` on an axis of length n (Python's clipping; PyInterp.clipIdx)"""
+    def clip(x):
+        x = x + n if x < 0 else x
+        return 0 if x < 0 else (n if x > n else x)
+    lo, hi = clip(lo), clip(hi)
+    return lo, max(lo, hi)
 
 
 def run_tree(tree, env, arrays):  # noqa: C901
@@ -256,6 +275,14 @@ class VecKernelTranslator(MapKernelTranslator):
         self.x = ExtExprTranslator(fn, lean_name, numpy_names, source_text)
         self.x.consts = dict(consts or {})
         self.length = None
+
+    def assigned(self, stmts):
+        """pyloops carries `pyOk` through an `if` / a loop only when it sees an array read; here bit operations, calls and
+        slice sums are tested too: the flag is always carried"""
+        out = super().assigned(stmts)
+        if OK not in out:
+            out.append(OK)
+        return out
 
     def store_cell(self, t: ast.Subscript) -> int:
         if not (isinstance(t.value, ast.Name) and t.value.id == self.out_name):
@@ -408,7 +435,7 @@ VECVAL = "vecval"  # a 1-D float array, as `List Val`
 RESVEC = "resvecval"  # what a call of a vector kernel returns
 LEAN_TYPE.setdefault(VECVAL, "List Val")  # additive: pyloops renders `let x : <type>` through this table
 LEAN_TYPE.setdefault(RESVEC, "PyLoops.Res (List Val)")
-NEW_OPS |= {"call", "resok", "resget", "countfinite", "anyfinite", "nanmedian", "sortedabsget", "vinb"}
+NEW_OPS |= {"call", "resok", "resget", "countfinite", "anyfinite", "nanmedian", "sortedabsget", "vinb", "sumband2", "slicenonneg2"}
 LOWER_TEXT = {
     "resok": "(PyInterp.Res.isOk {0})", "resget": "(PyInterp.Res.getD [] {0})", "countfinite": "(PyInterp.countFinite {0})",
     "anyfinite": "(PyInterp.anyFinite {0})", "nanmedian": "(PyInterp.nanmedian {0})",
@@ -439,6 +466,32 @@ class CopyExprTranslator(ExtExprTranslator):
                 v = self.vec_local(node.args[0].args[0], env)
                 if v is not None:
                     return Ex("countfinite", INT, (v,))
+            if self.is_np_call(node, "sum") and isinstance(node.args[0], ast.BinOp) and isinstance(node.args[0].op, ast.BitAnd):
+                # np.sum(arr[lo0:hi0, lo1:hi1] & c): a 2-D slice (clipped as Python clips it: no read outside) of an int array
+                sub, cnode = node.args[0].left, node.args[0].right
+                if isinstance(sub, ast.Subscript) and isinstance(sub.value, ast.Name) and sub.value.id in self.arrays \
+                        and isinstance(sub.slice, ast.Tuple) and len(sub.slice.elts) == 2 \
+                        and all(isinstance(x, ast.Slice) for x in sub.slice.elts):
+                    arr = self.arrays[sub.value.id]
+                    if arr.ndim != 2 or arr.elem != INT:
+                        raise Unsupported(f"{fn}: `{src(node)}`: slice sum of a {arr.ndim}-D {arr.elem} array")
+                    bounds = []
+                    for axis, sl in enumerate(sub.slice.elts):
+                        if sl.step is not None:
+                            raise Unsupported(f"{fn}: `{src(node)}`: slice with a step")
+                        lo = Ex("lit", INT, (), Fraction(0)) if sl.lower is None else self.expr(sl.lower, env, facts)
+                        hi = Ex("var", INT, (), arr.dims[axis]) if sl.upper is None else self.expr(sl.upper, env, facts)
+                        if lo.ty != INT or hi.ty != INT:
+                            raise Unsupported(f"{fn}: `{src(node)}`: slice bounds are not integers")
+                        bounds += [lo, hi]
+                    c = self.expr(cnode, env, facts)
+                    if c.ty != INT:
+                        raise Unsupported(f"{fn}: `{src(node)}`: `&` with a {c.ty}")
+                    chk = nonneg_check(c)
+                    if chk is not None:
+                        self.reads.append(chk)
+                    self.reads.append(Ex("slicenonneg2", BOOL, tuple(bounds), arr.name))  # `&` is defined on non-negative words
+                    return Ex("sumband2", INT, tuple(bounds) + (c,), arr.name)
             if self.is_np_call(node, "nanmedian"):
                 v = self.vec_local(node.args[0], env)
                 if v is not None:
